@@ -2,7 +2,10 @@ import Operon.Model.Proto
 import Operon.Model.Telomere
 /-! Line-protocol driver for the lifecycle model (C09).
 
-  cfg maxOps errThr allowRenew lifeQ|none idleQ|none     lifeQ = quarter hours, idleQ = quarter minutes (0 = falsy)
+  cfg maxOps errThr allowRenew lifeQ|none idleQ|none     lifeQ = quarter hours, idleQ = quarter minutes (0 = falsy);
+                                                          a new world: clock 0, one lifecycle in slot 0, selected
+  new k maxOps errThr allowRenew lifeQ|none idleQ|none   construct a lifecycle NOW in slot k (replacing), select it
+  use k                                                  select slot k (constructed now with the case's cfg if empty)
   start | tick c | err | hb | timeouts | renew n|none r | apo | term | rst | adv us     (`rst` = Telomere.reset(); a `reset` line separates cases)
 
   observation: ret phase length errors ops renewals reason age [events] lockTrace ## tag
@@ -11,9 +14,12 @@ import Operon.Model.Telomere
 open Operon Operon.Proto Operon.Telomere
 
 structure DSt where
+  /-- configuration of the case (`cfg` line): what `use k` constructs when slot `k` is empty -/
   cfg : Cfg := ⟨10, 3, true, none, none⟩
-  st : State := init ⟨10, 3, true, none, none⟩
-  dead : Bool := false
+  w : World := (stepW World.empty (.new 0 ⟨10, 3, true, none, none⟩)).1
+  cur : Nat := 0
+  /-- slots whose lifecycle hung in a call: abandoned -/
+  dead : List Nat := []
 
 def showPhase : Phase → String
   | .nascent => "N" | .active => "A" | .senescent => "S" | .apoptotic => "P" | .terminated => "T"
@@ -54,20 +60,51 @@ def parseOp : List String → Option Op
   | ["adv", us] => us.toNat?.map .adv
   | _ => none
 
+def parseCfg (m e a l i : String) : Cfg := ⟨natD m, natD e, boolOf a, optQ l 900000000, optQ i 15000000⟩
+
+def showSlot (w : World) (k : Nat) : String :=
+  match w.get k with
+  | some i => joinSp ["-", showState i.st, "[]", "-"]
+  | none => "bad-op"
+
 def step' (d : DSt) (toks : List String) : DSt × String :=
   match toks with
   | ["cfg", m, e, a, l, i] =>
-    let cfg : Cfg := ⟨natD m, natD e, boolOf a, optQ l 900000000, optQ i 15000000⟩
-    ({ cfg := cfg, st := init cfg, dead := false }, joinSp ["-", showState (init cfg), "[]", "-"])
+    let cfg := parseCfg m e a l i
+    let w := (stepW World.empty (.new 0 cfg)).1
+    ({ cfg := cfg, w := w, cur := 0, dead := [] }, showSlot w 0)
+  | ["new", k, m, e, a, l, i] =>
+    match k.toNat? with
+    | none => (d, "bad-op")
+    | some k =>
+      let w := (stepW d.w (.new k (parseCfg m e a l i))).1
+      ({ d with w := w, cur := k, dead := d.dead.filter (· != k) }, showSlot w k ++ " ## new")
+  | ["use", k] =>
+    match k.toNat? with
+    | none => (d, "bad-op")
+    | some k =>
+      if d.dead.contains k then ({ d with cur := k }, "dead") else
+      match d.w.get k with
+      | some _ => ({ d with cur := k }, showSlot d.w k ++ " ## use:old")
+      | none =>
+        let w := (stepW d.w (.new k d.cfg)).1
+        ({ d with w := w, cur := k }, showSlot w k ++ " ## use:fresh")
   | _ =>
     match parseOp toks with
     | none => (d, "bad-op")
     | some op =>
-      if d.dead then (d, "dead") else
-      let o := step d.cfg d.st op
-      if lockRun genKind 0 o.lock then
-        ({ d with st := o.st },
-          joinSp [showRet o.ret, showState o.st, showList (o.evs.map showEv), showLock o.lock] ++ " ## " ++ o.tag)
-      else ({ d with dead := true }, "hang ## hang:" ++ o.tag)
+      if d.dead.contains d.cur then (d, "dead") else
+      match stepW d.w (.on d.cur op) with
+      | (w, none) =>
+        match op with
+        | .adv _ => ({ d with w := w }, match w.get d.cur with
+            | some i => joinSp ["-", showState i.st, "[]", "-"] ++ " ## adv"
+            | none => "bad-op")
+        | _ => (d, "bad-op")
+      | (w, some o) =>
+        if lockRun genKind 0 o.lock then
+          ({ d with w := w },
+            joinSp [showRet o.ret, showState o.st, showList (o.evs.map showEv), showLock o.lock] ++ " ## " ++ o.tag)
+        else ({ d with dead := d.cur :: d.dead }, "hang ## hang:" ++ o.tag)
 
 def main : IO Unit := runDriver ({} : DSt) step'
